@@ -134,21 +134,39 @@ def applyTransfers (cfg : STVCfg) (hopeful : List Cand) (q : Int)
     let bs' ← applyTransfer cfg hopeful q (sample w) bs w
     applyTransfers cfg hopeful q sample ws bs'
 
+/-- who is elected in a round in which somebody reached the threshold: all candidates at or above
+it (simultaneous), or the single top candidate after the requested tiebreak (one by one) -/
+def electChoice (cfg : STVCfg) (q : Int) (ω : STVOracle) (rnd : Nat) (S : CState) (prev : RoundState) :
+    Outcome (Ranking × List (List Cand × Ranking)) :=
+  if cfg.simultaneous then
+    pure (prev.remaining.takeWhile (fun g =>
+      match g with
+      | [] => false
+      | c :: _ => decide ((q : Rat) ≤ lookupScore prev.scores c)), [])
+  else do
+    let r ← electFromRanking (ω.pri rnd) prev.remaining 1 (some (currentProfile S)) cfg.tiebreak
+    pure (r.elected, match r.tiebreak with | some t => [t] | none => [])
+
+/-- who is eliminated: the single member of the lowest group, or — after the first-place tiebreak on
+the *initial* profile — the last of the resolved order -/
+def loserChoice (init : Profile) (ω : STVOracle) (rnd : Nat) (lowest : List Cand) :
+    Outcome (Cand × List (List Cand × Ranking)) :=
+  if lowest.length > 1 then do
+    let t ← tiebreakSet (ω.pri rnd) lowest (some init) .firstPlace
+    match t.getLast? with
+    | some [c] => pure (c, [(lowest, t)])
+    | _ => .raised .indexError
+  else match lowest with
+    | [c] => pure (c, [])
+    | _ => .raised .indexError
+
 /-- one `_run_step`: returns the new count state and the recorded round -/
 def stvStep (cfg : STVCfg) (init : Profile) (q : Int) (ω : STVOracle) (rnd : Nat)
     (S : CState) (prev : RoundState) : Outcome (CState × RoundState) :=
   let above := prev.scores.filter (fun cs => decide ((q : Rat) ≤ cs.2))
   if !above.isEmpty then do
     -- elect
-    let (electedGroups, tbs) ←
-      if cfg.simultaneous then
-        pure (prev.remaining.takeWhile (fun g =>
-          match g with
-          | [] => false
-          | c :: _ => decide ((q : Rat) ≤ lookupScore prev.scores c)), [])
-      else do
-        let r ← electFromRanking (ω.pri rnd) prev.remaining 1 (some (currentProfile S)) cfg.tiebreak
-        pure (r.elected, match r.tiebreak with | some t => [t] | none => [])
+    let (electedGroups, tbs) ← electChoice cfg q ω rnd S prev
     let winners := electedGroups.flatten
     let bs' ← applyTransfers cfg S.hopeful q (ω.sample rnd) winners S.bs
     let hopeful' := S.hopeful.filter (fun c => !winners.contains c)
@@ -165,15 +183,7 @@ def stvStep (cfg : STVCfg) (init : Profile) (q : Int) (ω : STVOracle) (rnd : Na
     match prev.remaining.getLast? with
     | none => .raised .indexError            -- `list(frozenset())[0]`
     | some lowest => do
-      let (loser, tbs) ←
-        if lowest.length > 1 then do
-          let t ← tiebreakSet (ω.pri rnd) lowest (some init) .firstPlace
-          match t.getLast? with
-          | some [c] => pure (c, [(lowest, t)])
-          | _ => .raised .indexError
-        else match lowest with
-          | [c] => pure (c, [])
-          | _ => .raised .indexError
+      let (loser, tbs) ← loserChoice init ω rnd lowest
       let hopeful' := S.hopeful.filter (fun c => c != loser)
       let sc := tallies S.bs hopeful'
       pure ({ bs := S.bs, hopeful := hopeful', nElected := S.nElected },
